@@ -170,6 +170,7 @@ class Ensemble:
         self.c = np.array(ens.get("c", []), dtype=np.float64)
         self.salt = float(ens.get("salt", 0.0))
         self.offset = float(ens.get("offset", 0.0))     # large common offset of all outputs (hash kind): cancellation tests
+        self.unit = float(ens.get("unit", 1.0))         # all outputs of the hash kind expressed in another unit (1e-9 ... 1e9)
 
     def value(self, x, r, j):
         x = np.asarray(x, dtype=np.float64)
@@ -179,7 +180,7 @@ class Ensemble:
             return float(self.b[r, j] + self.a[r, j] @ x + 0.5 * self.q[j] * np.sum((x - self.c[r]) ** 2))
         # hash: smooth but practically injective in (x, r, j)
         t = float(np.dot(x, np.arange(1, x.size + 1) * 0.7310585)) + 1.6180339 * r + 2.7182818 * j + self.salt
-        return 3.0 * math.sin(t) + 0.37 * r - 0.53 * j + 0.01 * t + self.offset * (1 + 0.25 * j)
+        return (3.0 * math.sin(t) + 0.37 * r - 0.53 * j + 0.01 * t + self.offset * (1 + 0.25 * j)) * self.unit
 
     def values(self, X, rs, F):
         out = np.empty((len(rs), F))
